@@ -20,7 +20,7 @@ HERE = os.path.dirname(os.path.dirname(os.path.abspath(__file__)))
 
 
 def owner(path):
-    m = re.match(r"(C\d+)-", os.path.basename(path))
+    m = re.match(r"([CX]\d+)-", os.path.basename(path))
     if m:
         return [m.group(1)]
     meta = os.path.join(os.path.dirname(path), "meta.json")
@@ -44,8 +44,9 @@ def main():
     if "-j" in sys.argv:
         j = int(sys.argv[sys.argv.index("-j") + 1])
         args = [a for a in args if a != str(j)]
-    paths = sorted(glob.glob(os.path.join(HERE, "mutants", "*.patch"))) + \
-        sorted(glob.glob(os.path.join(HERE, "seeded", "*", "*", "patch.diff")))
+    paths = sorted(glob.glob(os.path.join(HERE, "mutants", "*.patch")))
+    if "--mutants-only" not in sys.argv:
+        paths += sorted(glob.glob(os.path.join(HERE, "seeded", "*", "*", "patch.diff")))
     jobs = [(p, pid) for p in paths for pid in owner(p) if not args or pid in args]
     bad = 0
     with cf.ThreadPoolExecutor(j) as ex:
